@@ -397,7 +397,7 @@ func verifH_C06_form_array() {
 	verifReach("end")
 }
 
-//verif:harness id=C06 tier=quick,thorough witness=end bounds="per-property encodings of url-encoded bodies: schema {l: array of integers / numbers / strings, s: string}; encoding of l with style unset / form / spaceDelimited / pipeDelimited x explode unset / true / false (unset = form, exploded); l carries 1-2 items of one symbolic decimal digit each, serialised by the style's rule (l=1&l=2 | l=1,2 | l=1%202 | l=1|2); the decoder returns the array the body encodes, and ValidateRequestBody accepts exactly when the item count meets a symbolic maxItems"
+//verif:harness id=C06 tier=quick,thorough witness=end bounds="per-property encodings of url-encoded bodies: schema {l: array of integers / numbers / strings, s: string}; encoding of l with style unset / form / spaceDelimited / pipeDelimited x explode unset / true / false (unset = exploded for form, not exploded for the delimited styles); l carries 1-2 items of one symbolic decimal digit each, serialised by the style's rule (l=1&l=2 | l=1,2 | l=1%202 | l=1|2); the decoder returns the array the body encodes, and ValidateRequestBody accepts exactly when the item count meets a symbolic maxItems"
 func verifH_C06_form_encodings() {
 	itemType := []string{"integer", "number", "string"}[verifChoose("itemType", 3)]
 	intS := &openapi3.SchemaRef{Value: &openapi3.Schema{Type: &openapi3.Types{itemType}}}
@@ -405,11 +405,14 @@ func verifH_C06_form_encodings() {
 	arr := &openapi3.SchemaRef{Value: &openapi3.Schema{Type: &openapi3.Types{"array"}, Items: intS, MaxItems: &maxItems}}
 	schema := &openapi3.SchemaRef{Value: &openapi3.Schema{Type: &openapi3.Types{"object"}, Properties: openapi3.Schemas{"l": arr, "s": {Value: &openapi3.Schema{Type: &openapi3.Types{"string"}}}}}}
 	enc := &openapi3.Encoding{Style: []string{"", "form", "spaceDelimited", "pipeDelimited"}[verifChoose("style", 4)]}
-	explode := true
+	// explode defaults to true for style form only (OpenAPI 3.0.3, Encoding Object)
+	delimited := enc.Style == "spaceDelimited" || enc.Style == "pipeDelimited"
+	explode := !delimited
 	switch verifChoose("explode", 3) {
 	case 1:
 		t := true
 		enc.Explode = &t
+		explode = true
 	case 2:
 		f := false
 		enc.Explode = &f
@@ -418,6 +421,8 @@ func verifH_C06_form_encodings() {
 	if enc.Validate(context.Background()) != nil {
 		return
 	}
+	// known finding: an encoding with a delimited style and no explode member is read as exploded
+	verifKnown("C06-encoding-delimited-explode-default", delimited && enc.Explode == nil)
 	n := 1 + verifChoose("n", 2)
 	items := make([]string, n)
 	want := make([]any, n)
